@@ -311,7 +311,7 @@ pub fn stream_case(ch: &mut Chooser, t: &mut Tally) {
 
 pub fn run(tier: Tier, _seed: u64, tally: &mut Tally) -> CheckMeta {
     let bound = if tier.thorough() { 2 } else { 1 };
-    explore("c03.object", Limits::new(bound).wall(if tier.thorough() { 3000 } else { 120 }), tally, object_case);
+    explore("c03.object", Limits::new(bound).wall(if tier.thorough() { 3000 } else { 600 }), tally, object_case);
     explore("c03.stream", Limits::new(bound + 1), tally, stream_case);
     if tier.thorough() {
         // atoms alone with up to 3 deviations
